@@ -147,3 +147,80 @@ def rule_OV1(ctx, files=None):
                          % (f.src_text(i)[:70].strip(), f.nodes[p].get('t')))
     res.analysed['products_32bit'] = nmul
     return res, nmul
+
+
+# ------------------------------------------------------------------ N1: fold before use
+def _is_fold(f, n, d):
+    """p *= <sign>  |  p = C - p  |  p = -p   (reflection of a by-value argument onto its principal range)"""
+    if n['k'] == 'CompoundAssignOperator' and n.get('op') == '*=':
+        rn = f.nodes[f.strip_casts(n['ch'][1])]
+        return (rn['k'] == 'DeclRefExpr' and rn.get('t', '').replace('const ', '') == 'int') or rn['k'] == 'ConditionalOperator'
+    if n['k'] == 'BinaryOperator' and n.get('op') == '=':
+        rn = f.nodes[f.strip_casts(n['ch'][1])]
+        if rn['k'] == 'BinaryOperator' and rn.get('op') == '-':
+            b = f.nodes[f.strip_casts(rn['ch'][1])]
+            a = f.nodes[f.strip(rn['ch'][0])]
+            return b['k'] == 'DeclRefExpr' and b.get('d') == d and ('cv' in a or a['k'] in ('IntegerLiteral', 'FloatingLiteral'))
+        if rn['k'] == 'UnaryOperator' and rn.get('op') == '-':
+            b = f.nodes[f.strip_casts(rn['ch'][0])]
+            return b['k'] == 'DeclRefExpr' and b.get('d') == d
+    return False
+
+
+def rule_N1(ctx, files=None):
+    res = RuleResult('N1', 'fold before use: a by-value argument that is reflected onto its principal range (p *= sign, '
+                           'p = C - p) is not handed to a function before its last such fold (the value would be taken '
+                           'before the normalisation is complete)')
+    nfold = 0
+    PRED = ('signbit', 'isnan', 'isfinite', 'isinf', 'fabs', 'abs', 'copysign', 'swap')
+    for f in sorted(ctx.lib_fns(), key=lambda x: (x.file, x.line)):
+        if not _in(f, files) or f.d.get('body', -1) < 0:
+            continue
+        for p in f.params:
+            if p['pk'] != 'v' or not p.get('float'):
+                continue
+            d = p['d']
+            folds = []
+            for i, n in f.all_nodes():
+                if n['k'] in ('BinaryOperator', 'CompoundAssignOperator') and n.get('op', '').endswith('=') and \
+                        n['op'] not in ('==', '!=', '<=', '>='):
+                    ln = f.nodes[f.strip(n['ch'][0])]
+                    if ln['k'] == 'DeclRefExpr' and ln.get('d') == d and _is_fold(f, n, d):
+                        folds.append(i)
+            if not folds:
+                continue
+            nfold += 1
+            last = max(folds, key=lambda i: (f.nodes[i]['l'], f.nodes[i].get('c', 0)))
+            ll = (f.nodes[last]['l'], f.nodes[last].get('c', 0))
+            for i, n in f.all_nodes():
+                ce = n.get('callee')
+                if not ce or not n.get('args') or (n['l'], n.get('c', 0)) >= ll or ce.get('name') in PRED:
+                    continue
+                anc = list(f.ancestors(i))
+                if any(f.nodes[a]['k'] in ('ReturnStmt', 'CXXThrowExpr') for a in anc):
+                    continue
+                # p = F(p): a normalisation of p itself
+                selfnorm = False
+                for a in anc:
+                    an = f.nodes[a]
+                    if an['k'] == 'BinaryOperator' and an.get('op') == '=':
+                        ln = f.nodes[f.strip(an['ch'][0])]
+                        if ln['k'] == 'DeclRefExpr' and ln.get('d') == d:
+                            selfnorm = True
+                        break
+                    if an['k'] in ('CompoundStmt', 'DeclStmt'):
+                        break
+                if selfnorm:
+                    continue
+                for a in n['args']:
+                    an = f.nodes[f.strip_casts(a)]
+                    if an['k'] == 'DeclRefExpr' and an.get('d') == d:
+                        res.ob(False, {'fn': f.q, 'argument': p['name'], 'passed_to': ce.get('q'), 'at': f.loc(i),
+                                       'last_fold_line': ll[0]})
+                        res.fail(f.q, '%s->%s' % (p['name'], ce.get('name')), f.loc(i),
+                                 '%s is passed to %s at line %d but is still folded afterwards (line %d: %s): the value is '
+                                 'taken before the reflection onto the principal range is complete'
+                                 % (p['name'], ce.get('q'), n['l'], ll[0], f.src_text(last)[:50].strip()))
+            res.ob(True, None)
+    res.analysed['folded_arguments'] = nfold
+    return res, nfold
